@@ -536,24 +536,28 @@ PROPS["C04"] = {
 # ---------------------------------------------------------------- C11 (partial)
 PROPS["C11"] = {
     "level": "model_checking", "engine": "mir-smt", "mir": True,
-    "technique": "symbolic execution of the MIR of streamname::to_b64 / from_b64 (all chars / all values) and of the stream "
-                 "entry points of Package (container as uninterpreted events) into SMT; z3/cvc5",
-    "claim": "Two kernels of the property only. (1) The 64-symbol alphabet of stream-name packing is a bijection: for every char, "
-             "to_b64 packs exactly [0-9A-Za-z._], into 0..63, from_b64 inverts it and to_b64 inverts from_b64 on 0..63; neither "
-             "panics. (2) read_stream / write_stream / remove_stream validate the name as a STREAM name before touching the "
-             "container, address the container only by the stream-style encoding of that name (so table streams are not "
-             "reachable), return invalid / unknown names as errors without a creating or removing call, and never panic on "
-             "these paths. The packing loops themselves (encode / decode build Strings char by char: 50 GB in Kani, loops in "
-             "MIR), contents and aliasing under cfb's name comparison are outside. (3) The listing: per container entry visited by "
-             "Streams::next (<= 2 entries per call), the entry is skipped exactly when it is not a stream, or its RAW container name equals one "
-             "of the four special stream names, or it decodes as a table stream; otherwise it is returned under streamname::decode of its raw "
-             "name; None only when the container has no more entries.",
-    "note": "Trusted: MIR translator, models of char::is_ascii_* / char::from_u32 / Option::unwrap, protocol models, z3/cvc5. By "
-            "reading (not decided): a character in U+3800..U+4840 passes through encode unchanged and is expanded by decode, so "
-            "two accepted names can encode identically (streamname.rs).",
-    "bounds": "all Unicode scalar values; all 6-bit values; one stream call from an arbitrary flag state",
-    "outside": "encode/decode loops, is_valid's length rule, contents, digital-signature removal, cfb",
-    "assumptions": list(__import__("vlib.mir_protocol", fromlist=["x"]).PROTOCOL_MODELS_DOC),
+    "technique": "symbolic execution of the MIR of streamname::encode / decode / is_valid / to_b64 / from_b64 (names of <= 3 symbolic "
+                 "characters, String::push as events), of Streams::next and of the stream entry points of Package (container as uninterpreted "
+                 "events) into SMT; round trip and injectivity decided by z3/cvc5 over the reference packing the code is pinned to; native replay",
+    "claim": "(1) Alphabet: to_b64 / from_b64 equal the reference 64-symbol alphabet [0-9A-Za-z._] <-> 0..63 for every char / value, a "
+             "bijection; no panic. (2) Packing, names of <= 3 characters: encode emits token by token the reference packing (two packable "
+             "neighbours -> 0x3800 + (b64(second) << 6) + b64(first); a lone packable -> 0x4800 + b64; anything else unchanged; table marker "
+             "first iff is_table), decode inverts it token by token (marker only in first position), neither panics; is_valid(name, false) "
+             "accepts only names that do not start with the marker and contain no character of 0x3800..0x4840; and over the reference, for "
+             "every such name, decode(encode(n)) = (n, false), and two different such names (<= 2 characters each) never encode alike. "
+             "(3) Calls: read_stream / write_stream / remove_stream validate the name as a STREAM name before touching the container, address "
+             "the container only by its stream-style encoding (table streams are not reachable), return invalid / unknown names as errors "
+             "without a creating or removing call, never panic on these paths. (4) Listing: Streams::next skips an entry exactly when it is "
+             "not a stream, or its RAW name is one of the four special names, or it decodes as a table; otherwise returns decode(raw). "
+             "NOT decided: names longer than 3 characters (the loops are uniform, but that is an argument, not a query), the 31-unit length "
+             "rule, stream contents, aliasing under cfb's own (case-insensitive) name comparison, digital-signature removal.",
+    "note": "Trusted: MIR translator, models of Chars/Peekable (position over a symbolic character array), char::is_ascii_* / char::from_u32, "
+            "protocol models, z3/cvc5. On the pinned tree law (2) failed: is_valid accepted names containing the packing's own code points, so "
+            "\"00\" and \"\\u{3800}\" named the same stream (fixed in /repo cde8fbc).",
+    "bounds": "names of <= 3 Unicode scalar values (injectivity: <= 2 + 2); all 6-bit values; one stream call from an arbitrary flag state; <= 2 entries per listing call",
+    "outside": "longer names, is_valid's length rule, contents, digital-signature removal, cfb",
+    "assumptions": list(__import__("vlib.mir_protocol", fromlist=["x"]).PROTOCOL_MODELS_DOC) + [
+        "str::chars / Peekable are a position over an array of symbolic scalar values whose length is fixed per path"],
 }
 
 # ---------------------------------------------------------------- C12 (partial)
